@@ -681,10 +681,11 @@ func checkC08(c *Ctx) {
 // checkLiveConfig (C08.R9, C13.R9): a running Redis processor applies a configuration update by updating the one
 // holder object (`config`) that the upstream, every backend connection and every filter share by pointer. Two
 // structural conditions keep the data path on the latest configuration:
-//   (a) a field of holder type is written only while its struct is being constructed - replacing the pointer later
-//       leaves every other component on the old holder;
-//   (b) no struct of the package (other than the holder) keeps a pointer to a protobuf configuration message in a
-//       field - such a copy is resolved once and never sees an update.
+//
+//	(a) a field of holder type is written only while its struct is being constructed - replacing the pointer later
+//	    leaves every other component on the old holder;
+//	(b) no struct of the package (other than the holder) keeps a pointer to a protobuf configuration message in a
+//	    field - such a copy is resolved once and never sees an update.
 func checkLiveConfig(c *Ctx, rule string) {
 	p := c.P
 	holder := p.Named(redisPkg, "config")
